@@ -63,6 +63,19 @@ pub fn catalogue() -> Vec<(&'static str, Vec<MLayer>)> {
 				vec![feat(Some(1u64 << 35), &[0, 0, 1, 1, 2, 2, 3, 3, 4, 4], 1, point(1, 1)), feat(Some((1u64 << 63) + 5), &[5, 5, 6, 6, 7, 7, 8, 8], 1, point(-4096, 8191))],
 			)],
 		),
+		(
+			"2000 layers, each with a feature valued double 0.0 and one valued double -0.0 (and float zeros)",
+			(0..2000u32)
+				.map(|i| {
+					layer(
+						&format!("zeros{i}"),
+						&["d", "f"],
+						vec![(Enc::Double, MVal::F64(0.0f64.to_bits())), (Enc::Double, MVal::F64((-0.0f64).to_bits())), (Enc::Float, MVal::F32(0.0f32.to_bits())), (Enc::Float, MVal::F32((-0.0f32).to_bits()))],
+						vec![feat(Some(1), &[0, 0, 1, 2], 1, point(1, 1)), feat(Some(2), &[0, 1, 1, 3], 1, point(2, 2))],
+					)
+				})
+				.collect(),
+		),
 		("layer b, version 1 without extent field", vec![MLayer { extent: None, version: 1, ..layer("b", &["t"], vec![s("v1")], vec![feat(Some(11), &[0, 0], 2, line(&[(1, 1), (2, 2)]))]) }]),
 	]
 }
@@ -111,7 +124,7 @@ pub fn compare_layers(got: &[DLayer], want: &BTreeMap<String, Vec<DFeature>>) ->
 
 pub fn run(ctx: Arc<Ctx>) {
 	ctx.rule(
-		"catalogue of 13 small valid vector tiles built by an independent MVT encoder (disjoint/overlapping layer names, tables in other order / with duplicates / unused entries, ids none/0/2^64-1, all value kinds, extents, empty layer); \
+		"catalogue of 14 valid vector tiles built by an independent MVT encoder (disjoint/overlapping layer names, tables in other order / with duplicates / unused entries, ids none/0/2^64-1, all value kinds, extents, empty layer); \
 		 every ordered pair (quick) and every ordered triple (thorough; quick: triples over the first 6) as source lists; each source holds its tile at one coordinate per presence mask, so every presence pattern occurs; source compressions mixed. \
 		 plus every ordered pair of a bounded-exhaustive family of small layers of one name (5 key tables x 4 value tables x feature lists with every tag list of <= 2 pairs; every 2nd per side in quick, all in thorough) merged through one pipeline whose sources hold layer i resp. j at (10,i,j). plus merges whose key/value tables cross 128 / 16384 (thorough: 2^21) entries only after merging. oracle on independently decoded output: layer set, features in source order with id/type/geometry bytes/property set, declared+delivered uncompressed, lookups = stream. non-trivial = (source list, presence mask) with >= 2 sources present",
 	);
